@@ -248,6 +248,39 @@ func runTwins(t *tape.Tape, cfg sim.Config) (res sim.Result) {
 		}
 		res.Steps++
 	}
+	// a collector module imports the SAME-NAMED function from two of the twins and takes a reference to
+	// both (element segment, ref.func): each reference runs on the state of the instance it came from
+	if res.Violation == nil && t.Chance(1, 2) {
+		i0 := t.Choose(n)
+		i1 := (i0 + 1 + t.Choose(n-1)) % n
+		q := &wasmb.Module{}
+		i32 := []wasmb.ValType{wasmb.I32}
+		f0 := q.ImportFunc(fmt.Sprintf("m%d", i0), "id", i32, i32)
+		f1 := q.ImportFunc(fmt.Sprintf("m%d", i1), "id", i32, i32)
+		ty := q.AddType(i32, i32)
+		q.Tables = []wasmb.Table{{Elem: wasmb.FuncRef, Lim: wasmb.Limits{Min: 4}}}
+		q.Elems = []wasmb.Elem{{Mode: 0, Offset: wasmb.ConstI32(0), Funcs: []uint32{f0, f1}}}
+		q.AddFunc([]wasmb.ValType{wasmb.I32, wasmb.I32}, i32, nil, (&wasmb.Code{}).LocalGet(1).LocalGet(0).CallIndirect(ty, 0).B, "q")
+		q.AddFunc(nil, nil, nil, (&wasmb.Code{}).I32Const(2).RefFunc(f1).TableSet(0).I32Const(3).RefFunc(f0).TableSet(0).B, "refs")
+		qm, err := rt.InstantiateWithConfig(ctx, q.Encode(), wazero.NewModuleConfig().WithName("q"))
+		if err != nil {
+			panic(fmt.Sprintf("harness: collector: %v", err))
+		}
+		if _, err := qm.ExportedFunction("refs").Call(ctx); err != nil {
+			panic(err)
+		}
+		res.Stat("probe.references_to_the_same_named_import_of_two_twins", 1)
+		for slot, j := range []int{i0, i1, i1, i0} {
+			x := int32(t.Choose(900))
+			got, err := qm.ExportedFunction("q").Call(ctx, uint64(slot), uint64(uint32(x)))
+			want := own[j]*1000 + x
+			res.Logf("q(%d,%d)", slot, x)
+			if err != nil || int32(uint32(got[0])) != want {
+				res.Fail("view-diverged", "a module importing \"id\" from m%d and from m%d (instances of one compiled module) holds a reference to each (slots 0/1 by element segment, 2/3 by ref.func): call_indirect slot %d must run m%d's id (own=%d); got %v %v, the model expects %d", i0, i1, slot, j, own[j], got, errLine(err), want)
+				return
+			}
+		}
+	}
 	res.Shape = sim.ShapeOf(shape...)
 	res.Nontrivial = crossTail > 0
 	res.Stat("probe.tail_calls_into_a_sibling_instance_of_the_same_compiled_module", int64(crossTail))
